@@ -159,6 +159,31 @@ CLAIMED["C10"] = dict(
           "and degenerate zero-width lengths are outside the property."),
     ref="4 C10")
 
+CLAIMED["C20"] = dict(
+    engine="base",
+    technique="TLA+ specs Wnaf (recoding state machine, exhaustive at scaled limb widths), MultiExp (formal sums), Shamir (sharing over Z_q, exhaustive), PointEnc (decision table of accepted encodings) and HdPath (getter -> SLIP-10 path, injectivity) checked by TLC; their rows replayed on the curve instances, secret_sharing and the key-derivation crates against references recomputed from the definitions",
+    text=("Wnaf.tla is the windowed-NAF recoding of GenericMultiExp as a state machine over (position, carry, digits); TLC proves for every scalar at four (limb width, limbs, window) settings that digits are odd or zero, "
+          "bounded, and sum to the scalar with windows straddling limbs; every model scalar is embedded into 256-bit scalars (3 fills x 3 limb offsets) and GenericMultiExp with windows 1..7 and the ed25519 instance "
+          "are compared with single scalar multiplications. MultiExp.tla gives multiexp its meaning as a formal sum over a basis (identity, repeated and inverse points, boundary scalars), replayed on G1, G2 and ed25519. "
+          "Shamir.tla: TLC checks over Z_5 (quick) / Z_7 (thorough) that every >= t shares reconstruct in field and exponent and that fewer leave >= q-1 secrets possible; every (points, threshold, revealed subset) "
+          "scenario is replayed on share / reveal / reveal_in_group with three point embeddings. PointEnc.tla: the canonical-encoding decision table (flags x coordinate class, Ristretto classes, scalar ranges, hash-to-group) "
+          "instantiated as real byte strings: decoders must accept exactly the canonical class and re-encode identically. HdPath.tla: every wallet getter's path (checked injective by TLC) is recomputed with an independent "
+          "HMAC-SHA512 SLIP-10 chain and HKDF BLS key generation. Found and fixed with this check: encodings with the infinity flag and arbitrary other bits were accepted as the identity (P1)."),
+    note=("Field and single-point arithmetic of arkworks / dalek is the trusted base; the 64-bit recoding is model-checked only at scaled widths; 'fewer shares give an unrelated value' is checked as inequality with the "
+          "secret; mnemonic-to-seed conversion is not covered."),
+    ref="4 C20")
+
+CLAIMED["C19"] = dict(
+    engine="base",
+    technique="TLA+ specs SigAgg (signatures as formal sums over (key, message); Sign-and-Aggregate state machine; the four verifiers as predicates, their agreement and soundness checked by TLC), Vrf (proof terms bound to key and input) and PsSig (signed vector with zero padding, blind issuance residue); all rows replayed with real BLS12-381 / ed25519 keys",
+    text=("SigAgg.tla models a BLS signature as a vector over the basis (key, message) and aggregation as addition; TLC explores every aggregate of up to 3 (thorough 4) signatures over 3 keys x 3 messages and checks "
+          "that verify, verify_aggregate_sig (rejects empty and duplicate messages), verify_aggregate_sig_hybrid and verify_aggregate_sig_trusted_keys agree where their preconditions overlap and accept exactly vector "
+          "equality. Every (aggregate, neighbouring claim) row is replayed on aggregate_sig with real keys. Vrf.tla: proofs are terms of what they were made for; the full (prover, verifier, tamper) table is replayed on "
+          "ecvrf (verify, to_hash equality iff same key and message, determinism, bit flips of the 80-byte encoding), on the BLS proof of possession and on the ed25519 dlog proof with transcript contexts. PsSig.tla: "
+          "a signature is (zero-padded vector, unblinding residue); every vector of length 0..4 for a key of length 3, known and blind issuance, is verified against every neighbouring vector on ps_sig."),
+    note=("Unforgeability is not decidable here; mismatches are the enumerated ones. Messages are three fixed byte strings, keys fixed seeded keys. Signature blinding (blind) is not covered."),
+    ref="4 C19")
+
 NOT_YET = {
 }
 
